@@ -229,6 +229,12 @@ Definition act_ok (r : regs) (ifm_elem ofm_elem : Z) : bool :=
            || ((16 <=? a) && (a <=? 23) && (ifm_elem =? 2) && (ofm_elem =? 2)).
 (* a 32-bit OFM takes 256 four-byte entries (the exponential table of the 8-bit softmax), indexed like the 8-bit tables by
    the clipped result counted from -128 *)
+(* one entry e = slope << 16 | base of a 16-bit table, applied to the value u counted from -32768 *)
+Definition lut16_interp (e u : Z) : Z :=
+  let base := to_signed 16 (e mod 65536) in
+  let slope := to_signed 16 (e / 65536) in
+  clampz (-32768) 32767 (base + (slope * (u mod 128) + 64) / 128).
+
 Definition activate (x : xcfg) (m : mem) (r : regs) (v : Z) : Z :=
   match lut_index r with
   | Some i =>
@@ -239,10 +245,7 @@ Definition activate (x : xcfg) (m : mem) (r : regs) (v : Z) : Z :=
               interpolated with the lower seven: base + (slope * fraction + 64) >> 7 (the reference kernels' lut_lookup,
               which Vela's tables are built for) *)
            let u := v + 32768 in
-           let e := rd_le (get_bank m SHRAM) (x_lut_addr x + i * 256 + 4 * (u / 128)) 4 in
-           let base := to_signed 16 (e mod 65536) in
-           let slope := to_signed 16 (e / 65536) in
-           clampz (-32768) 32767 (base + (slope * (u mod 128) + 64) / 128)
+           lut16_interp (rd_le (get_bank m SHRAM) (x_lut_addr x + i * 256 + 4 * (u / 128)) 4) u
       else rd8 (get_bank m SHRAM) (x_lut_addr x + i * 256 + (v - (if ofm_signed r then -128 else 0)))
   | None => v
   end.
